@@ -680,7 +680,7 @@ def _get_entropy(reference_beats, estimated_beats, bins):
             # Inter-annotation interval - space between first two beats
             interval = 0.5 * (reference_beats[1] - reference_beats[0])
         # If last annotation is closest...
-        if closest_beat == (reference_beats.shape[0] - 1):
+        elif closest_beat == (reference_beats.shape[0] - 1):
             interval = 0.5 * (reference_beats[-1] - reference_beats[-2])
         else:
             if absolute_error < 0:
